@@ -21,6 +21,7 @@ int                        g_chunk    = 0;
 std::vector<int>           g_wscript_default;
 long                       g_io_events = 0;
 static int                 g_nextfd   = 100;
+extern int                 g_plumb;
 
 void ev(const char *fmt, ...) {
   va_list ap;
@@ -283,7 +284,7 @@ static ares_ssize_t v_sendto(ares_socket_t fd, const void *buffer, size_t length
     Frame f;
     f.seq = 0; f.fd = fd; f.srv = s->srv;
     f.bytes.assign((const char *)buffer, length);
-    f.parsed = decode_frame(f.bytes, f);
+    g_plumb++; f.parsed = decode_frame(f.bytes, f); g_plumb--;
     attempted = frame_json(f);
   }
   if (e) {
@@ -304,7 +305,7 @@ static ares_ssize_t v_sendto(ares_socket_t fd, const void *buffer, size_t length
     f.seq = (int)g_frames.size() + 1;
     f.fd = fd; f.srv = s->srv; f.tcp = false; f.at = g_now_ms;
     f.bytes.assign((const char *)buffer, length);
-    f.parsed = decode_frame(f.bytes, f);
+    g_plumb++; f.parsed = decode_frame(f.bytes, f); g_plumb--;
     g_frames.push_back(f);
     ev("{\"e\":\"sk\",\"op\":\"send\",\"fd\":%d,\"tcp\":0,\"srv\":%d,\"res\":\"ok\",\"n\":%zu,\"len\":%zu,\"frames\":[%s]}", fd,
        s->srv, length, length, frame_json(f).c_str());
@@ -325,7 +326,7 @@ static ares_ssize_t v_sendto(ares_socket_t fd, const void *buffer, size_t length
     f.seq = (int)g_frames.size() + 1;
     f.fd = fd; f.srv = s->srv; f.tcp = true; f.at = g_now_ms;
     f.bytes = s->outstream.substr(s->outparsed + 2, l);
-    f.parsed = decode_frame(f.bytes, f);
+    g_plumb++; f.parsed = decode_frame(f.bytes, f); g_plumb--;
     g_frames.push_back(f);
     s->outparsed += 2 + l;
     if (!fr.empty()) fr += ",";
